@@ -1408,6 +1408,14 @@ func (x *Exec) cutLoop(f *Frame, li *loopInfo) {
 		}
 		st.heaps[h] = x.b.Fresh("hv_"+h, cur.Sort)
 	}
+	// the hidden index of a range-over-slice loop starts at -1 and is only incremented by the loop
+	for a := range mod.locals {
+		if a.Comment == "rangeindex" {
+			if v, ok := st.locals[a]; ok {
+				x.assume(st.reach, And(mk(SBool, "(>= %s (- 1))", v), mk(SBool, "(<= %s 281474976710656)", v)))
+			}
+		}
+	}
 	// type facts of havocked locals need the new alloc
 	for a := range mod.locals {
 		if v, ok := st.locals[a]; ok {
